@@ -2140,6 +2140,8 @@ func (db *DB) sync(ctx context.Context, checkpointing bool, exec *syncExecutor, 
 		if rd, err = NewWALReaderWithOffset(ctx, walFile, info.offset, info.salt1, info.salt2, walReaderLogger); errors.As(err, &pfmError) {
 			db.Logger.Log(ctx, internal.LevelTrace, "prev frame mismatch, snapshotting", "err", pfmError.Err)
 			info.offset = WALHeaderSize
+			info.snapshotting = true
+			info.reason = "prev frame mismatch"
 			if rd, err = NewWALReader(walFile, walReaderLogger); err != nil {
 				return result, fmt.Errorf("new wal reader, after reset")
 			}
